@@ -12,10 +12,12 @@ def run(chk):
     chk.mc("MC_Percolation", "MC_Percolation.cfg", required=["Decide", "Eval"])
     rng = _r.Random(chk.seed)
     traces = []
-    for n in (1, 2, 3, 4):
+    for n in (1, 2, 3, 4) + ((5,) if thorough else ()):
         V = list(range(n))
         pairs = list(itertools.combinations(V, 2))
         for mask in range(0, 1 << len(pairs)):
+            if n == 5 and (bin(mask).count("1") > 6 or mask % 5):
+                continue
             E = [list(pairs[i]) for i in range(len(pairs)) if mask >> i & 1]
             for a, b in PHIS:
                 if b ** len(E) > 4100:
@@ -23,9 +25,9 @@ def run(chk):
                 # vertex ids need not be 0..N-1: 1-based and strided relabellings of the same graph
                 f = [lambda v: v, lambda v: v + 1, lambda v: 7 + 3 * v][(mask + a) % 3]
                 traces.append(P.run_perc({"V": [f(v) for v in V], "E": [[f(x), f(y)] for x, y in E], "a": a, "b": b, "mode": ("tree",)}))
-    for M in range(1, 7):                     # stars: (N*S - 1)/M ~ Binomial(M, phi)/M
+    for M in range(1, 9 if thorough else 7):                     # stars: (N*S - 1)/M ~ Binomial(M, phi)/M
         for a, b in PHIS:
-            if b ** M > 4100 and not thorough:
+            if b ** M > (70000 if thorough else 4100):
                 continue
             hub = [0, M, 50][(M + a) % 3]          # the hub need not be the first or the smallest vertex
             leaves = [v for v in range(0, M + 1) if v != hub] if hub <= M else list(range(M))
@@ -36,7 +38,7 @@ def run(chk):
     if und:
         chk.not_decided.append("retention law: RNG tree of bond_percolate not enumerable (%s)" % und[0]["undecided"])
     chk.rng_leaves = sum(len(t["leaves"]) for t in traces)
-    for i in range(300 if thorough else 60):
+    for i in range(3000 if thorough else 60):
         n = rng.randrange(2, 31)
         E = [list(e) for e in itertools.combinations(range(n), 2) if rng.random() < rng.choice([0.05, 0.2, 0.5])]
         a, b = rng.choice(PHIS + [(2, 7), (9, 10)])
